@@ -283,6 +283,22 @@ func runC03(ctx *Ctx) error {
 			}
 		}
 	}
+	// challenges whose login token (before it is cut to eight digits) is small: 0, one digit, ...,
+	// seven digits — found by search with the independent recipe
+	for digits := 0; digits <= 7; digits++ {
+		for k := 0; k < 4000000; k++ {
+			ch := fmt.Sprintf("%08d", 10000000+k)
+			if tok := c16Token(ch, "secret", publishedSalt); (digits == 0 && tok == 0) || (digits > 0 && len(fmt.Sprint(tok)) == digits && tok > 0) {
+				c := slave
+				c.Password = "secret"
+				tcs = append(tcs, tc{c, []byte("[WL2K-5.0-B2FWIHJM$]\r;PQ: " + ch + "\rCMS>\rFF\r"), "secure-login"})
+				break
+			}
+			if digits <= 3 && k > 300000 {
+				break // (tokens that small are too rare to search for on every run)
+			}
+		}
+	}
 	// (c) arbitrary bytes
 	for i := 0; i < ctx.N(300, 3000); i++ {
 		c := slave
